@@ -127,7 +127,7 @@ def run(ctx):
         for i in range(0, len(fs), chunk):
             tasks.append({"n": n, "seed": ctx.seed, "forests": [f.describe() for f in fs[i:i + chunk]]})
     rng = np.random.default_rng([ctx.seed, 909])
-    nrand = 60 if ctx.tier == "quick" else 600
+    nrand = 60 if ctx.tier == "quick" else 3000
     big = []
     for i in range(nrand):
         n = int(rng.integers(5, 8))
@@ -137,7 +137,7 @@ def run(ctx):
         fs = [f.describe() for m, f in big if m == n]
         for i in range(0, len(fs), 6):
             tasks.append({"n": n, "seed": ctx.seed, "forests": fs[i:i + 6]})
-    nbig = 40 if ctx.tier == "quick" else 400
+    nbig = 40 if ctx.tier == "quick" else 2000
     for i in range(0, nbig, 10):
         fs = []
         for j in range(10):
